@@ -28,6 +28,18 @@ def PyErr.documented : PyErr → Bool
   | .negative _ | .invalid | .unexpected | .timeout | .config | .notImpl => true
   | _ => false
 
+/-- the failures the interpretation of a reply (interpret_response + the client's checks) may end in: the documented ones that are not
+    produced by `send_request` itself (a negative response, a timeout) -/
+def PyErr.ofReply : PyErr → Bool
+  | .invalid | .unexpected | .config | .notImpl => true
+  | _ => false
+
+theorem PyErr.ofReply_documented {e : PyErr} (h : e.ofReply = true) : e.documented = true := by
+  cases e <;> simp_all [PyErr.ofReply, PyErr.documented]
+
+theorem PyErr.ofReply_not_negative {e : PyErr} (h : e.ofReply = true) : (∀ c, e ≠ .negative c) ∧ e ≠ .timeout := by
+  cases e <;> simp_all [PyErr.ofReply]
+
 def PyErr.tag : PyErr → String
   | .negative c => s!"negative:{c}"
   | .invalid => "invalid" | .unexpected => "unexpected" | .timeout => "timeout"
